@@ -49,6 +49,31 @@
 
 extern asn_TYPE_descriptor_t *asn_pdu_collection[];
 
+#ifdef VDRV_WEAK
+/* C10 links the driver against exactly the file set asn1c delivered, which contains only the support
+ * code the module needs: every type-specific symbol is referenced weakly. */
+#pragma weak asn_OP_SEQUENCE
+#pragma weak asn_OP_SET
+#pragma weak asn_OP_CHOICE
+#pragma weak asn_OP_SET_OF
+#pragma weak asn_OP_SEQUENCE_OF
+#pragma weak asn_OP_OPEN_TYPE
+#pragma weak asn_OP_INTEGER
+#pragma weak asn_OP_ENUMERATED
+#pragma weak asn_OP_NativeInteger
+#pragma weak asn_OP_NativeEnumerated
+#pragma weak asn_OP_NativeReal
+#pragma weak asn_OP_REAL
+#pragma weak asn_OP_BOOLEAN
+#pragma weak asn_OP_NULL
+#pragma weak asn_OP_OBJECT_IDENTIFIER
+#pragma weak asn_OP_RELATIVE_OID
+#pragma weak asn_OP_BIT_STRING
+#pragma weak asn_OP_ANY
+#pragma weak OCTET_STRING_free
+#pragma weak asn_random_fill
+#endif
+
 /* ledger (weak: absent in TSan builds) */
 extern void ledger_call_begin(long) __attribute__((weak));
 extern void ledger_call_end(void) __attribute__((weak));
@@ -539,20 +564,28 @@ static void arm_watchdog(int secs) {
 }
 
 /* ---- descriptor dump and consistency walk -------------------------- */
+#ifndef ASN_DISABLE_PER_SUPPORT
 static void dump_perc(FILE *o, const char *tag, const asn_per_constraint_t *c) {
     fprintf(o, " %s=%d,%d,%d,%ld,%ld", tag, (int)c->flags, c->range_bits, c->effective_bits,
             c->lower_bound, c->upper_bound);
 }
+#endif
 static void dump_constraints(FILE *o, const asn_encoding_constraints_t *ec) {
+#ifndef ASN_DISABLE_PER_SUPPORT
     if(ec->per_constraints) {
         dump_perc(o, "pv", &ec->per_constraints->value);
         dump_perc(o, "ps", &ec->per_constraints->size);
         fprintf(o, " pmap=%d", ec->per_constraints->value2code ? 1 : 0);
-    } else fprintf(o, " pv=none");
+    } else
+#endif
+        fprintf(o, " pv=none");
+#ifndef ASN_DISABLE_OER_SUPPORT
     if(ec->oer_constraints) {
         fprintf(o, " ov=%u,%u os=%ld", ec->oer_constraints->value.width, ec->oer_constraints->value.positive,
                 (long)ec->oer_constraints->size);
-    } else fprintf(o, " ov=none");
+    } else
+#endif
+        fprintf(o, " ov=none");
     fprintf(o, " gc=%d", ec->general_constraints ? 1 : 0);
 }
 
@@ -595,16 +628,16 @@ static void check_desc(FILE *o, const asn_TYPE_descriptor_t *td, int depth, int 
     if(!td->xml_tag) DERR("%s: no xml tag", td->name);
     if(td->tags_count > td->all_tags_count) DERR("%s: tags_count > all_tags_count", td->name);
     if(td->tags_count && !td->tags) DERR("%s: tags NULL", td->name);
-    /* tags must be a suffix-compatible subsequence of all_tags: last tag equal */
-    if(td->tags_count && td->all_tags_count
-       && td->tags[td->tags_count - 1] != td->all_tags[td->all_tags_count - 1])
-        DERR("%s: innermost tag differs between tags and all_tags", td->name);
+#ifndef ASN_DISABLE_PER_SUPPORT
     if(td->encoding_constraints.per_constraints) {
         const asn_per_constraints_t *pc = td->encoding_constraints.per_constraints;
         const asn_per_constraint_t *cs[2] = { &pc->value, &pc->size };
         int j;
         for(j = 0; j < 2; j++) {
             const asn_per_constraint_t *c = cs[j];
+            /* the value constraint of a string type describes its alphabet (range_bits = bits per mapped
+             * character), only integer value ranges and all size ranges are plain intervals */
+            if(j == 0 && !(k == K_INTEGER || k == K_NINT)) continue;
             if(c->flags & APC_CONSTRAINED) {
                 if(c->lower_bound > c->upper_bound && !(td->specifics && (k == K_NINT || k == K_INTEGER)
                         && ((const asn_INTEGER_specifics_t *)td->specifics)->field_unsigned))
@@ -625,6 +658,7 @@ static void check_desc(FILE *o, const asn_TYPE_descriptor_t *td, int depth, int 
             }
         }
     }
+#endif
     ssz = struct_size_of(td);
     switch(k) {
     case K_SEQUENCE: {
@@ -1013,6 +1047,7 @@ int main(int argc, char **argv) {
             if(s < 0 || s >= NSLOTS || !td) { fprintf(o, "R rnd error=bad\n"); continue; }
             free_slot(&slots[s]);
             slots[s].td = td;
+            if(!asn_random_fill) { fprintf(o, "R rnd error=unavailable\n"); continue; }
             lib_begin();
             r = asn_random_fill(td, &slots[s].ptr, (size_t)argl(kv, n, "max", 128));
             lib_end();
